@@ -597,6 +597,16 @@ func checkCli(c CliCase) error {
 	}
 	r := cli.Run(dir, in.String(), args...)
 	ctx := fmt.Sprintf(" (gotree %v)\n%s", args, in.String())
+	if !c.OmitF && (c.Cutoff < 0.5 || c.Cutoff > 1) {
+		// a threshold outside [0.5,1] is refused (the consensus would not be a tree / is not defined)
+		if r.TimedOut || r.Panicked() {
+			return fmt.Errorf("command hangs or crashes on the threshold %v%s", c.Cutoff, ctx)
+		}
+		if r.Code == 0 {
+			return fmt.Errorf("the threshold %v is outside [0.5,1] and is accepted: exit status 0, output %q%s", c.Cutoff, r.Stdout+cli.Read(dir, "cons.nw"), ctx)
+		}
+		return nil
+	}
 	if r.Code != 0 || r.TimedOut {
 		return fmt.Errorf("command failed with status %d: %s%s", r.Code, r.Stderr, ctx)
 	}
@@ -616,10 +626,14 @@ func checkCli(c CliCase) error {
 func TestC09Cli(t *testing.T) {
 	h.Run(t, h.Spec[CliCase]{
 		Property: "C09", Name: "cli", Quick: 1600, Thorough: 32000,
-		Rule: "the same collections and thresholds through `gotree compute consensus -f x`, and with -f left out (documented default 0.5): the printed tree is judged against the same frequency table; non-trivial = >= 3 trees",
+		Rule: "the same collections and thresholds through `gotree compute consensus -f x`, and with -f left out (documented default 0.5): the printed tree is judged against the same frequency table; one case in eight passes a threshold outside [0.5,1] (0.3, 1.5, 50, 75, 100 ...), which must be refused with a non-zero status; non-trivial = >= 3 trees",
 		Gen: func(t *rapid.T, thorough bool) CliCase {
 			trees := genCollection(t, false, 1)
-			return CliCase{Trees: trees, Cutoff: cutoff(t, len(trees)), OmitF: rapid.IntRange(0, 3).Draw(t, "omitf") == 0}
+			c := CliCase{Trees: trees, Cutoff: cutoff(t, len(trees)), OmitF: rapid.IntRange(0, 3).Draw(t, "omitf") == 0}
+			if !c.OmitF && rapid.IntRange(0, 7).Draw(t, "badcut") == 3 {
+				c.Cutoff = rapid.SampledFrom([]float64{0.3, 0.49, 0, -1, 1.0001, 1.5, 2, 30, 50, 60, 75, 100, 150}).Draw(t, "cutbad")
+			}
+			return c
 		},
 		Check: checkCli,
 		Classify: func(c CliCase) (bool, []string) {
